@@ -328,7 +328,7 @@ func thoroughExtremes() {
 
 // parChoices: the stated set {1,2,3,7,16,rows+5} plus parallelism equal to (and adjacent to) the number of rows
 func parChoices(rows int) []int {
-	c := []int{1, 2, 3, 7, 16, rows + 5}
+	c := []int{1, 2, 3, 7, 16, rows + 5, 32, 33, 64, 255, 256, 257, 1000} // also more workers than a pool, a byte or a small table holds
 	for _, p := range []int{rows - 1, rows, rows + 1, 4, 8} {
 		if p >= 1 {
 			c = append(c, p)
